@@ -48,7 +48,7 @@ DESIGN_REF = "§5 C20"
 RULE = ("case = (store access path, state kind, <=6 tasks with <=6 operations in total, virtual delays); distinct = hash of the "
         "case spec; non-trivial = at least one operation was issued while another task's edit_state block was open")
 REQUIRED_REACH = ["final_state_oracle", "serial_orders_evaluated", "op_issued_during_open_block",
-                  "cases_memory_shared", "cases_sqlite_shared", "cases_sqlite_per_task", "edit_blocks_run",
+                  "cases_memory_shared", "cases_sqlite_shared", "cases_sqlite_per_task", "seeded_store_object", "edit_blocks_run",
                   "set_state_run", "set_run", "clear_run",
                   "workflow_cases_plain", "workflow_cases_server_memory", "workflow_cases_server_sqlite",
                   "workflow_final_state_oracle", "workflow_step_contended"]
@@ -118,7 +118,8 @@ def gen_case(rnd):
     # A parent-type set_state on a run whose SQLite row does not exist yet is a sequential defect (C19 signature
     # state_mismatch_after_op/set_state_parent); keep it out of the concurrency verdict by letting the row exist.
     seed_row = any(o.get("cls") == "Parent" for o in ops) or rnd.random() < 0.5
-    return {"backend": backend, "objects": objects, "typed": typed, "seed_row": seed_row, "ops": ops, "tasks": tasks}
+    return {"backend": backend, "objects": objects, "typed": typed, "seed_row": seed_row, "ops": ops, "tasks": tasks,
+            "seeded_objects": objects == "per_task" and rnd.random() < 0.4}
 
 
 # ----------------------------------------------------------------- model
@@ -214,9 +215,18 @@ def run_case(case, env, acc):
     run_id = f"run-{env.counter}"
     st = Child if typed else None
 
-    def new_store():
+    def new_store(seeded=False):
         if backend == "memory":
             return InMemoryStateStore(Child() if typed else DictState())
+        if seeded:
+            # the way the server creates the state store of a run started from a serialized context: seeded with the (here: initial)
+            # state and the serializer it was written with; it is still one of the run's store objects and shares the run's lock
+            from workflows.context.serializers import JsonSerializer
+
+            ser = JsonSerializer()
+            payload = InMemoryStateStore(Child() if typed else DictState()).to_dict(ser)
+            acc.hit("seeded_store_object")
+            return env.ws.create_state_store(run_id, st, payload, ser)
         return env.ws.create_state_store(run_id, st)
 
     shared = new_store() if objects == "shared" else None
@@ -281,8 +291,7 @@ def run_case(case, env, acc):
             acc.hit("edit_blocks_run")
         trace.append(("ret", oid))
 
-    async def task(ids):
-        store = shared if shared is not None else new_store()
+    async def task(ids, store):
         for oid in ids:
             try:
                 await do_op(store, ops[oid])
@@ -294,7 +303,9 @@ def run_case(case, env, acc):
         if case.get("seed_row"):
             # the run's state row already exists (some earlier step touched the state)
             await (shared if shared is not None else new_store()).get_state()
-        await asyncio.gather(*(task(ids) for ids in case["tasks"]))
+        # every task's store object exists before the first operation runs (a seeded object writes its seed when it is created)
+        stores = [shared if shared is not None else new_store(seeded=bool(case.get("seeded_objects")) and i % 2 == 1) for i, _ in enumerate(case["tasks"])]
+        await asyncio.gather(*(task(ids, stores[i]) for i, ids in enumerate(case["tasks"])))
         reader = shared if backend == "memory" else new_store()
         out["final"] = extract(await reader.get_state(), typed)
 
